@@ -31,14 +31,23 @@ def main():
     copy = "/dev/shm/vf-mut-%d" % os.getpid()
     out = "/dev/shm/vf-mut-out-%d" % os.getpid()
     shutil.rmtree(copy, ignore_errors=True)
-    subprocess.run(["rsync", "-a", "--exclude", ".git", "--exclude", "__pycache__", "/repo/", copy + "/"], check=True)
-    r = subprocess.run(["git", "apply", "--unsafe-paths", "--directory", copy, os.path.abspath(patch)], cwd="/", capture_output=True, text=True)
-    if r.returncode != 0:
-        r = subprocess.run(["patch", "-p1", "-d", copy, "-i", os.path.abspath(patch)], capture_output=True, text=True)
+    if meta.get("commit") and not meta.get("source"):
+        # a reversed fix: let git do the revert in a scratch worktree (handles CRLF files and later edits nearby)
+        subprocess.run(["git", "-C", "/repo", "worktree", "add", "-q", "--detach", copy, "HEAD"], check=True)
+        r = subprocess.run(["git", "-C", copy, "revert", "--no-commit", meta["commit"]], capture_output=True, text=True)
         if r.returncode != 0:
-            print("PATCH-FAILED", r.stdout[-300:], r.stderr[-300:])
-            shutil.rmtree(copy, ignore_errors=True)
+            print("REVERT-CONFLICT", r.stderr[-200:].replace("\n", " "))
+            subprocess.run(["git", "-C", "/repo", "worktree", "remove", "--force", copy])
             return 3
+    else:
+        subprocess.run(["rsync", "-a", "--exclude", ".git", "--exclude", "__pycache__", "/repo/", copy + "/"], check=True)
+        r = subprocess.run(["git", "apply", "--unsafe-paths", "--directory", copy, os.path.abspath(patch)], cwd="/", capture_output=True, text=True)
+        if r.returncode != 0:
+            r = subprocess.run(["patch", "-p1", "-d", copy, "-i", os.path.abspath(patch)], capture_output=True, text=True)
+            if r.returncode != 0:
+                print("PATCH-FAILED", r.stdout[-300:], r.stderr[-300:])
+                shutil.rmtree(copy, ignore_errors=True)
+                return 3
     results = {}
     for p in props:
         env = dict(os.environ, VERIF_REPO=copy, VF_OUT=out, VERIF_SEED=a.seed)
@@ -52,6 +61,8 @@ def main():
         if pr.returncode not in (0, 1, 2):
             print(pr.stderr[-500:])
     if not a.keep:
+        if os.path.exists(os.path.join(copy, ".git")):
+            subprocess.run(["git", "-C", "/repo", "worktree", "remove", "--force", copy])
         shutil.rmtree(copy, ignore_errors=True)
         shutil.rmtree(out, ignore_errors=True)
     print("RESULT " + json.dumps(results))
